@@ -194,6 +194,30 @@ def generate(ctx):
             t2 = b'[' + t + b',{"k":' + t + b'}]'
             docs.append(t2)
             ctx.add('parse_value %s' % gen.hexarg(t2), meta=('doc', t2, False))
+    # wide objects with duplicated keys (last one wins whatever the size: a member list sorted unstably, a small-map fast path
+    # ...) and long arrays; one occurrence of the duplicated key spelled with an escape
+    for w in (8, 16, 17, 32, 33, 40, 64, 100, 300):
+        for order in ('asc', 'desc', 'mixed'):
+            idx = list(range(w))
+            if order == 'desc':
+                idx.reverse()
+            elif order == 'mixed':
+                r.shuffle(idx)
+            members = [('k%04d' % i, str(i)) for i in idx]
+            for (p1, p2) in ((0, 2), (0, w - 1), (w // 2, w - 1), (1, w // 2), (w - 2, w - 1)):
+                if p1 < p2 < w:
+                    ms = list(members)
+                    ms[p2] = (ms[p1][0], str(1000 + p2))
+                    parts = []
+                    for j, (k, v) in enumerate(ms):
+                        kk = k if j != p2 or r.random() < 0.5 else k.replace('k', '\\u006b')
+                        parts.append('"%s":%s' % (kk, v))
+                    t = ('{' + ','.join(parts) + '}').encode()
+                    docs.append(t)
+                    ctx.add('parse_value %s' % gen.hexarg(t), meta=('doc', t, False))
+        t = ('[' + ','.join(str(i) for i in range(w)) + ']').encode()
+        docs.append(t)
+        ctx.add('parse_value %s' % gen.hexarg(t), meta=('doc', t, False))
     # classic hard numbers
     for t in [b'0.1', b'1e23', b'5e-324', b'3e-324', b'2e-324', b'2.2250738585072011e-308', b'1.7976931348623157e308', b'1.7976931348623159e308',
               b'9007199254740993', b'9007199254740993.0', b'7.91252914157506e-14', b'8.675514674482229e-196', b'1e400', b'-1e400', b'1e-400', b'-0', b'-0.0', b'0e0',
